@@ -96,6 +96,13 @@ def expr_extra():
         # division by a power (the power is an atom for the enclosing product)
         "a / x ** 2", "a / (x + y) ** 3", "x / y ** 2 / a", "a / x ** 2 * y", "-a / b ** 2", "a / x ** 3 - b / y ** 2",
         "1 / x ** 2 / y ** 3", "a * x / (b + x) ** 2",
+        # integer-valued conditionals under negative integer powers (numpy integer arrays)
+        "Conditional(Gt(x, y), 4, 3)**-2", "Conditional(Eq(t, x), 4, 3)**-1", "a/Conditional(Gt(x, y), 4, 3)**2", "(Conditional(Gt(x, 0), 2, 1) + 1)**-1",
+        # a Conditional as operand of a comparison (sympy: ITE; its simplification may lack the unconditional branch)
+        "Conditional(Gt(Conditional(Eq(y, a), x, a), x), 12.5, exp(y))**0.5", "Conditional(Ge(Conditional(Lt(x, 1), y, a), z), 1/x, y)",
+        # sums of sums with a multiple of pi as a term (sympy peels pi off term by term)
+        "cos(x + (y + pi))", "sin((x + pi/2) + y)", "tan(x + (y + pi))", "sin(x - (y - pi))", "cos((a - b) + (y + 2*pi))",
+        "sin(2*pi*t + (x + pi))", "cos(2*(x + pi))", "sin(x*(y + pi))", "cos((x + pi)/2)", "sin((x + y) + (a + pi/2))",
     ]
 
 
